@@ -707,6 +707,105 @@ TARGETS.append(dict(
     alias="def parseSection (line : List Char) : Option (RecKind × Option Dir) := (P0f.parseSection line).map fun s => (s.kind, s.dir)\n",
 ))
 
+# ---------------------------------------------------------------------------------------------- C09 / C10 / C11: the file parser
+def _pf_err(fn, line_expr, env):
+    return "(Except.error (LoadErr.parsing " + par(fn.coerce(line_expr, env, "Nat")) + "))"
+
+
+def _pf_db_create(fn, args, kw, env):
+    if kw or len(args) != 2:
+        raise NotTranslatable("database.create call shape")
+    return ("(Db.createKD " + par(env["database"][0]) + " " + par(fn.coerce(args[0], env, "Enum:RecKind")) + " "
+            + par(fn.coerce(args[1], env, "Opt:Enum:Dir")) + ")", "Rec:Db")
+
+
+def _pf_db_add(fn, args, kw, env):
+    # add(value, direction) files the record under type(value): the class it was built from
+    if kw or len(args) != 2:
+        raise NotTranslatable("database.add call shape")
+    rec, trec = fn.expr(args[0], env)
+    if not trec.startswith("Rec:DbRec@"):
+        raise NotTranslatable("database.add of a value that is not a record built from the section's class")
+    return fn.raising("(Db.addKD " + par(env["database"][0]) + " " + par(trec[10:]) + " " + par(fn.coerce(args[1], env, "Opt:Enum:Dir"))
+                      + " " + par(rec) + ")", "Rec:Db")
+
+
+def _pf_record_ctor(fn, args, kw, env):
+    want = ("label", "signature", "raw_signature", "line_number")
+    if args or set(kw) != set(want) or env.get("record_cls") is None or env["record_cls"][1] != "Enum:RecKind":
+        raise NotTranslatable("record constructor call shape")
+    sig, tsig = fn.expr(kw["signature"], env)
+    if tsig != "Rec:DbSig":
+        raise NotTranslatable("record signature of an unexpected type")
+    text = ("({ label := " + fn.coerce(kw["label"], env, "Opt:Rec:DbLabel") + ", sig := " + sig + ", raw := " + fn.coerce(kw["raw_signature"], env, "Str")
+            + ", line := " + fn.coerce(kw["line_number"], env, "Nat") + " } : DbRec)")
+    ty = "Rec:DbRec@" + env["record_cls"][0]
+    fn.t.setdefault("lean_types", {})[ty] = "DbRec"
+    return (text, ty)
+
+
+def _pf_cls_parse(lean_name, ret):
+    def mk(fn, args, kw, env):
+        if kw or len(args) != 1 or env.get("record_cls") is None or env["record_cls"][1] != "Enum:RecKind":
+            raise NotTranslatable(f"{lean_name} call shape (record class not known to be set)")
+        return fn.raising(f"({lean_name} {par(env['record_cls'][0])} {par(fn.coerce(args[0], env, 'Str'))})", ret)
+    return mk
+
+
+def _pf_isinstance(fn, args, kw, env):
+    if kw or len(args) != 2 or dotted_name(args[1]) != "Label":
+        raise NotTranslatable("isinstance other than isinstance(x, Label)")
+    e, t = fn.expr(args[0], env)
+    if t == "Rec:DbLabel":
+        return (f"(DbLabel.isOs {par(e)})", "Bool")
+    if t == "Opt:Rec:DbLabel":
+        return (f"(Option.elim {par(e)} false DbLabel.isOs)", "Bool")
+    raise NotTranslatable("isinstance on a value that is not a label")
+
+
+def _pf_set_sys(fn, args, kw, env):
+    v, tv = fn.expr(args[0], env)
+    if tv != "List:Str" or env.get("label") is None:
+        raise NotTranslatable("label.sys store shape")
+    e, t = env["label"]
+    if t == "Rec:DbLabel":
+        return (f"(DbLabel.withSys {par(v)} {par(e)})", t)
+    if t == "Opt:Rec:DbLabel":
+        return (f"(Option.map (DbLabel.withSys {par(v)}) {par(e)})", t)
+    raise NotTranslatable("label.sys store on a value that is not a label")
+
+
+def dotted_name(n):
+    return n.id if isinstance(n, ast.Name) else None
+
+
+TARGETS.append(dict(
+    module="pyp0f.database.parse.parser", func="_parse_file", file="ParseFile", lean="parseFileLines",
+    import_="P0f.Glue.ParseFile", open="P0f P0f.Py", desugar=True, sort_carried=True,
+    pyparams=["file"], params=[("file", "List (List Char)")], ret="Exc:Rec:Db", lean_ret="Except LoadErr Db", err_ty="LoadErr",
+    err_default="(Except.error LoadErr.database)",
+    env={"file": ("file", "List:Str")},
+    raises={"ParsingError": lambda fn, exc, env: _pf_err(fn, exc.args[1], env)},
+    with_wrappers={"parsing_error_wrapper": lambda fn, call, env: _pf_err(fn, call.args[0], env)},
+    mutators={"database.create": "database", "database.add": "database"},
+    attr_setters={"label.sys": "label"},
+    opt_types={"label": "Opt:Rec:DbLabel", "direction": "Opt:Enum:Dir", "record_cls": "Opt:Enum:RecKind"},
+    lean_types={"Str": "List Char", "Rec:Db": "Db", "Rec:DbLabel": "DbLabel", "Rec:DbSig": "DbSig"},
+    records={"DbLabel": {"is_user_app": (".isUserApp", "Bool")}},
+    calls={"RecordsDatabase": lambda fn, a, k, e: ("Db.empty", "Rec:Db"),
+           "_parse_section": opt_call("P0f.Gen.parseSection", ["Str"], "Tuple:Enum:RecKind,Opt:Enum:Dir"),
+           "%mut%database.create": _pf_db_create, "%mut%database.add": _pf_db_add,
+           "record_cls": _pf_record_ctor,
+           "record_cls._signature_cls.parse": _pf_cls_parse("P0f.Gen.parseSigFor", "Rec:DbSig"),
+           "record_cls._label_cls.parse": _pf_cls_parse("P0f.Gen.parseLabelFor", "Rec:DbLabel"),
+           "isinstance": _pf_isinstance, "%set%label.sys": _pf_set_sys},
+    alias="def parseFileLines_loop0 (file : List (List Char)) (ls : List (List Char)) (database : Db) (direction : Option Dir) (label : Option DbLabel) "
+          "(line_number_next : Nat) (record_cls : Option RecKind) (state : PState) : Except LoadErr Db :=\n"
+          "  match P0f.parseGo ls line_number_next { db := database, state := state, label := label, sec := record_cls.bind fun k => P0f.secOf k direction } with\n"
+          "  | .ok st => .ok st.db\n  | .error e => .error e\n"
+          "def parseFileLines (file : List (List Char)) : Except LoadErr Db := P0f.parseLines file\n",
+))
+
 # ---------------------------------------------------------------------------------------------- C18: the writers
 TARGETS.append(dict(
     module="pyp0f.net.layers.tcp.options", func="TCPOptions.dump", file="DumpLayout", lean="dumpLayout", import_="P0f.Model.TcpOptions", open="P0f",
